@@ -47,6 +47,20 @@ BAD_EXPR = ["a=", "[", "a..b", "[-1]", "a[", "]", "{", "{}x", "a b c", "=", "#",
             "[1][", "a={", "l[99999]", ".a", "a.", "..", "[]x", "{}[0]", "a#b", "@", "l[0][0][0]", " "]
 
 
+# self-aliasing family (harness ops "pa..", "da..", "ca..", "na.."): the result of a getter handed to a mutator of the same object
+ALIAS_RICH = ["a.b=hello", "a.c=world", "m.k1=v1", "m.k2=v2", "m.k3=v3", "l[0]=x", "l[1]=y", "deep.x.y.z=1", "deep.l[0].k=2", "k=v", "n.e.w=1",
+              "y={a: [1, 2], b: c}"]
+ALIAS_LEAVES = ["a.b", "a.c", "m.k1", "m.k2", "l[0]", "l[1]", "deep.x.y.z", "deep.l[0].k", "k", "k", "n.e.w"]
+ALIAS_NESTED = [("a", "a.b"), ("a.b", "a"), ("deep", "deep.x.y"), ("deep.x.y", "deep"), ("m", "m"), (".", "a"), ("a", "."),
+                ("l[0]", "l"), ("l", "l[0]"), ("deep.l[0]", "deep"), ("deep", "deep.l[0]"), (".", "."), ("n.e", "m"), ("m.k1", "m"),
+                ("m", "deep.x"), ("deep.x.q", "deep")]
+ALIAS_MAPS = [".", "m", "a", "deep", "deep.x", "deep.x.y", "n.e", "n", "m"]
+ALIAS_SUFFIX = ["", "", "_x", "_" + "long" * 12]
+# ops that make more than one mutating library call (checks/C12.py never takes them as the op under test)
+ALIAS_COMPOSITE = {"pacopysub", "padelvia", "paimportvia", "pakeys", "capsetvia", "capcopy", "capimport", "capkeys"}
+P_ALIAS = {"p": 0.10, "d": 0.12, "c": 0.10, "n": 0.05}
+
+
 def rnd_index(rng, n, p_bad=0.2):
     """an index for a domain of size n: mostly valid, sometimes a boundary / invalid value"""
     if n > 0 and rng.random() > p_bad:
@@ -67,12 +81,14 @@ def type_dims(rng, t):
 
 
 class Gen(object):
-    def __init__(self, rng, modules=("p", "d", "c", "n"), p_bad=0.15):
+    def __init__(self, rng, modules=("p", "d", "c", "n"), p_bad=0.15, p_alias=None):
         self.rng = rng
         self.modules = modules
         self.p_bad = p_bad
+        self.p_alias = dict(P_ALIAS) if p_alias is None else {m: p_alias for m in P_ALIAS}
         self.ops = []
         self.P = [False] * NP
+        self.Prich = [False] * NP       # the keys of ALIAS_RICH have been set in this tree
         self.D = [None] * ND            # dict(rows, cols, freqs, type) or None
         self.C = [None] * NC            # dict(params=[...], cals=[names], saved=set())
         self.N = [None] * NN            # dict(c, type, rows, cols, freqs, fv, solved, adds)
@@ -88,6 +104,9 @@ class Gen(object):
     # ------------------------------------------------------------------ vnaproperty
     def prop_op(self):
         r = self.rng
+        if r.random() < self.p_alias["p"]:
+            self.prop_alias_op()
+            return
         p = r.randrange(NP)
         x = r.random()
         if x < 0.40:
@@ -125,11 +144,184 @@ class Gen(object):
         else:
             self.emit("pdig", p)
 
+    def prop_rich(self, q):
+        """make sure tree q holds the keys the self-aliasing ops refer to (later ops may remove some again)"""
+        if not self.Prich[q]:
+            for e in ALIAS_RICH:
+                self.emit("pset", q, enc(e))
+            self.Prich[q] = True
+            self.P[q] = True
+
+    def prop_alias_op(self):
+        """a getter result of tree q handed to a mutator of tree p (mostly q == p)"""
+        r = self.rng
+        p = r.randrange(NP)
+        q = p if r.random() < 0.65 else r.randrange(NP)
+        if r.random() < 0.85:
+            self.prop_rich(q)
+        x = r.random()
+        if x < 0.30:
+            src = r.choice(ALIAS_LEAVES) if not self.bad() else r.choice([".", "a", "nokey", "l[9]"])
+            dst = src if r.random() < 0.5 else r.choice(ALIAS_LEAVES + [".", "a", "new.key", "l[+]", "l[0+]"])
+            self.emit("paset", p, q, enc(src), enc(dst), enc(r.choice(ALIAS_SUFFIX)))
+        elif x < 0.45:
+            self.emit("pacopy", p, q, enc(r.choice(GOOD_SUB)))
+            self.Prich[p] = False
+        elif x < 0.62:
+            dst, src = r.choice(ALIAS_NESTED) if r.random() < 0.7 else (r.choice(GOOD_SUB), r.choice(GOOD_SUB))
+            self.emit("pacopysub", p, enc(dst), q, enc(src))
+            self.Prich[p] = False
+        elif x < 0.70:
+            self.emit("paimports", p, q, enc(r.choice(["y", "y", "y", "k", "a.b"])), r.randrange(2))
+            self.Prich[p] = False
+        elif x < 0.78:
+            if r.random() < 0.5:
+                self.emit("padelvia", p, enc(r.choice(GOOD_SUB)))
+            else:
+                self.emit("paimportvia", p, enc(r.choice(GOOD_SUB)), enc(r.choice(["c: d\n", "[1, [2, 3]]\n", "~\n", "x: [\n"])))
+            self.Prich[p] = False
+        else:
+            mode = r.randrange(5)
+            self.emit("pakeys", p, enc(r.choice(ALIAS_MAPS)), mode)
+            if mode in (1, 3, 4):
+                self.Prich[p] = False
+        self.P[p] = True
+
+    def list_boundary_scenario(self):
+        """a property list filled to exactly n elements, n a growth boundary of the list vector (8, 16, 32) or next to one,
+        then an insert strictly inside it, an append, deletes / inserts around the boundary"""
+        r = self.rng
+        p = r.randrange(NP)
+        n = r.choice([8, 8, 16, 32, 7, 9, 16, 17])
+        name = r.choice(["bl", "deep.bl", "bl"])
+        if n > 8 or r.random() < 0.4:
+            self.emit("pimports", p, enc("%s: [%s]\n" % ("bl", ", ".join(str(i) for i in range(n)))), 0)
+            name = "bl"
+        else:
+            for i in range(n):
+                self.emit("pset", p, enc("%s[+]=%d" % (name, i)))
+        self.P[p] = True
+        self.emit("pset", p, enc("%s[%d+]=x" % (name, r.randrange(1, n - 1))))
+        self.emit("pset", p, enc("%s[+]=y" % name))
+        for _ in range(r.choice([0, 1, 2, 3])):
+            k = r.randrange(4)
+            if k == 0:
+                self.emit("pdel", p, enc("%s[%d]" % (name, r.randrange(0, n))))
+            elif k == 1:
+                self.emit("pset", p, enc("%s[%d+]=z" % (name, r.choice([0, 1, n - 1, n, n + 1, n + 2]))))
+            elif k == 2:
+                self.emit("pset", p, enc("%s[%d]=w" % (name, r.choice([n, n + 1, n + 2, 2 * n - 1, 2 * n]))))
+            else:
+                self.emit("pcount", p, enc(name))
+        self.emit("pdig", p)
+
     # ------------------------------------------------------------------ vnadata
+    def data_alias_op(self, d, st):
+        """a pointer returned by a getter of vnadata object o handed to a mutator of object d (mostly o == d)"""
+        r = self.rng
+        if st["freqs"] <= 0 or st["rows"] <= 0 or st["cols"] <= 0:
+            t, rows, cols, f = r.choice([(1, 2, 2, 3), (1, 3, 3, 2), (4, 2, 2, 4), (1, 1, 1, 3), (10, 1, 2, 3)])
+            self.emit("dinit", d, t, rows, cols, f)
+            st.update(rows=rows, cols=cols, freqs=f, type=t)
+        others = [i for i in range(ND) if self.D[i] is not None and i != d]
+        o = d if (r.random() < 0.65 or not others) else r.choice(others)
+        nf, rows, cols = st["freqs"], st["rows"], st["cols"]
+        nfo = self.D[o]["freqs"]
+        pb = self.p_bad
+
+        def fi():
+            return rnd_index(r, nf, pb)
+
+        def fo():
+            return rnd_index(r, nfo, pb)
+        x = r.random()
+        if x < 0.30 and r.random() < 0.8:
+            self.emit("dsetfmt", o, enc(r.choice(["Sri", "SdB,Zma", "Sma,Zri", "zin", "IL,RL,VSWR", "Tri,Uma,Hri"])))
+        if x < 0.10:
+            self.emit("dasetfmt", d, o)
+        elif x < 0.20:
+            t = r.randrange(NT)
+            if r.random() < 0.7:
+                self.emit("dsetft", d, r.choice([1, 2, 3, 3]))
+            self.emit("dasavefmt", d, o, t)
+            self.Ttxt[t] = "data:fmt"
+        elif x < 0.27:
+            ts = [i for i in range(NT) if self.Ttxt[i] and self.Ttxt[i].startswith("data:")]
+            if ts and others:
+                self.emit("daloadfmt", d, r.choice(others), r.choice(ts))   # (the same object is not a legal call, see the harness)
+            else:
+                self.emit("dasetfmt", d, o)
+        elif x < 0.30:
+            self.emit("dacksavefmt", d, o)
+        elif x < 0.38:
+            self.emit("dasetfv", d, o)
+        elif x < 0.54:
+            self.emit("dasetz0v", d, o, r.randrange(2), fo())
+        elif x < 0.74:
+            self.emit("dasetfz0v", d, fi(), o, r.randrange(2), fo())
+        elif x < 0.88:
+            self.emit("dasetm", d, fi(), o, fo())
+        else:
+            self.emit(r.choice(["dasetv", "dagetv"]), d, rnd_index(r, rows, pb), rnd_index(r, cols, pb), o, fo())
+
+    def data_shrink_scenario(self):
+        """shrink after use: an object initialised with many frequencies (and ports), then with few, then the first switch of
+        the z0 mode, then grown again inside the old allocation, then every new row is touched"""
+        r = self.rng
+        d = r.randrange(ND)
+        if self.D[d] is None:
+            self.emit("dalloc", d, 1)
+        big, small = r.choice([6, 8, 10]), r.choice([0, 1, 2, 3])
+        mid = r.randrange(small + 1, big + 1)
+        t, bigp = r.choice([(1, 2), (1, 3), (4, 2), (5, 3), (1, 1), (10, 3)])
+        smallp = r.choice([bigp, bigp, max(1, bigp - 1)])
+
+        def dims(ports):
+            return (1, ports) if t == 10 else (ports, ports)
+        self.emit("dinit", d, t, dims(bigp)[0], dims(bigp)[1], big)
+        if r.random() < 0.5:
+            self.emit("dsetfv", d, 0)
+        self.emit(r.choice(["dinit", "dresize"]), d, t, dims(smallp)[0], dims(smallp)[1], small)
+        k = r.randrange(4)
+        if small == 0:
+            k = 3
+        if k == 0:
+            self.emit("dsetfz0", d, r.randrange(small), r.randrange(smallp), "75", "0")
+        elif k == 1:
+            self.emit("dsetfz0v", d, r.randrange(small), 0, "30")
+        elif k == 2:
+            self.emit("dsetz0", d, r.randrange(smallp), "75", "1")
+        if r.random() < 0.7:
+            self.emit("dresize", d, t, dims(bigp)[0], dims(bigp)[1], mid)
+        else:
+            for _ in range(mid - small):
+                self.emit("daddf", d, "%de9" % (20 + len(self.ops)))
+        if k >= 2:
+            self.emit("dsetfz0", d, mid - 1, bigp - 1, "75", "0")       # the first switch happens after the growth
+        self.emit("dgetfz0", d, mid - 1, bigp - 1)
+        self.emit("dgetfz0v", d, r.randrange(small, mid))
+        self.emit("dsetfz0", d, r.randrange(small, mid), r.randrange(bigp), "60", "1")
+        if r.random() < 0.5:
+            self.emit("dsetfz0v", d, mid - 1, 0, "45")
+        self.emit("ddig", d)
+        if r.random() < 0.5:
+            t_ = r.randrange(NT)
+            self.emit("dsave", d, t_, "x.npd")
+            self.Ttxt[t_] = "data:x.npd"
+        if r.random() < 0.4:
+            self.emit("dsetz0", d, 0, "50", "0")                        # back to the simple vector, and forth again
+            self.emit("dresize", d, t, dims(bigp)[0], dims(bigp)[1], big)
+            self.emit("dsetfz0", d, big - 1, bigp - 1, "40", "0")
+            self.emit("ddig", d)
+        self.D[d] = dict(rows=dims(bigp)[0], cols=dims(bigp)[1], freqs=mid, type=t)
+
     def data_op(self):
         r = self.rng
         d = r.randrange(ND)
         st = self.D[d]
+        if st is not None and r.random() < self.p_alias["d"]:
+            self.data_alias_op(d, st)
+            return
         if st is None:
             if r.random() < 0.5:
                 self.emit("dalloc", d, r.randrange(2))
@@ -253,7 +445,7 @@ class Gen(object):
         if st is None:
             if self.saved and r.random() < 0.3:
                 self.emit("cload", c, r.choice(sorted(self.saved)), r.randrange(2))
-                self.C[c] = dict(params=[0, 1, 2], cals=["cal0"])
+                self.C[c] = dict(params=[0, 1, 2], cals=["cal0"], named=True)
             else:
                 self.emit("ccreate", c, r.randrange(2))
                 self.C[c] = dict(params=[0, 1, 2], cals=[])
@@ -261,6 +453,9 @@ class Gen(object):
         params = st["params"]
         kinds = st.setdefault("kinds", {})    # approximate: index -> ("s",) | ("v", n) | ("u", other) | ("c", other)
         nxt = max(params) + 1 if params else 3
+        if r.random() < self.p_alias["c"]:
+            self.cal_alias_op(c, st)
+            return
 
         def par():
             if params and not self.bad():
@@ -330,6 +525,7 @@ class Gen(object):
             fid = r.randrange(3)
             self.emit("csave", c, fid)
             self.saved.add(fid)
+            st["named"] = True
         elif x < 0.96:
             ns = [i for i in range(NN) if self.N[i] is not None and self.N[i]["c"] == c]
             n = r.choice(ns) if ns and not self.bad() else r.randrange(NN + 1)
@@ -344,11 +540,102 @@ class Gen(object):
             rows, cols = r.choice([(2, 2), (1, 1), (2, 1), (1, 2), (3, 3), (0, 0)])
             self.emit("capply", c, ci, d, nf, rows, cols, r.randrange(2), 1 if self.bad() else 0)
 
+    def cal_alias_op(self, c, st):
+        """a pointer returned by a getter of vnacal_t o handed to a mutator of vnacal_t c (mostly o == c)"""
+        r = self.rng
+        if not st["cals"] and "n" in self.modules and r.random() < 0.6:
+            ports = r.choice([1, 1, 2])
+            self.calibration_scenario(self.free_new(), c, r.choice([T8, U8, TE10, UE10, E12, UE14]), ports, r.choice([1, 2, 3]))
+        o = c if (r.random() < 0.7 or self.C[1 - c] is None) else 1 - c
+        ncal, ncalo = len(st["cals"]), len(self.C[o]["cals"])
+
+        def ci(n=None):
+            n = ncal if n is None else n
+            if n == 0:
+                return -1 if r.random() < 0.8 else 0
+            return rnd_index(r, n, 0.15) if r.random() < 0.75 else -1
+        x = r.random()
+        if ncal == 0 and 0.58 <= x < 0.96:
+            x = r.choice([0.0, 0.2, 0.4])       # nothing to take a name / frequency vector from: properties and file name
+        if x < 0.14:
+            if not self.C[o].get("named") and r.random() < 0.85:
+                fid = r.randrange(3)
+                self.emit("csave", o, fid)
+                self.saved.add(fid)
+                self.C[o]["named"] = True
+            self.emit("casave", c, o)
+            if self.C[o].get("named"):
+                st["named"] = True
+        elif x < 0.28:
+            src = r.choice(ALIAS_LEAVES)
+            dst = src if r.random() < 0.5 else r.choice(ALIAS_LEAVES + ["new.key", "l[+]"])
+            cj = ci(ncalo)
+            if r.random() < 0.85:
+                self.emit("cpset", o, cj, enc(src + "=value"))
+            self.emit("capset", c, ci(), o, cj, enc(src), enc(dst), enc(r.choice(ALIAS_SUFFIX)))
+        elif x < 0.33:
+            self.emit("capsetvia", c, ci(), enc(r.choice(GOOD_SUB)), "val")
+        elif x < 0.43:
+            dst, src = r.choice(ALIAS_NESTED) if r.random() < 0.7 else (r.choice(GOOD_SUB), r.choice(GOOD_SUB))
+            cj = ci(ncalo)
+            if r.random() < 0.85:
+                for e in r.sample(ALIAS_RICH[:-1], 4):
+                    self.emit("cpset", o, cj, enc(e))
+            self.emit("capcopy", c, r.choice([cj, ci()]) if o == c else ci(), enc(dst), o, cj, enc(src))
+        elif x < 0.50:
+            self.emit(r.choice(["capexport", "capimport"]), c, ci(), enc(r.choice(GOOD_SUB)), r.randrange(NP))
+        elif x < 0.58:
+            cj = ci()
+            if r.random() < 0.85:
+                for e in r.sample(ALIAS_RICH[:-1], 3) + ["m.k1=v1", "m.k2=v2"]:
+                    self.emit("cpset", c, cj, enc(e))
+            self.emit("capkeys", c, cj, enc(r.choice(ALIAS_MAPS)), r.randrange(4))
+        elif x < 0.70:
+            ns = [i for i in range(NN) if self.N[i] is not None and self.N[i]["c"] == c and self.N[i].get("solved")]
+            if ns:
+                self.emit("caaddcal", c, rnd_index(r, ncalo, 0.15), o, r.choice(ns))
+            else:
+                self.emit("cafind", c, rnd_index(r, ncalo, 0.15), o)
+        elif x < 0.76:
+            self.emit("cafind", c, rnd_index(r, ncalo, 0.15), o)
+        elif x < 0.84:
+            if r.random() < 0.5:
+                self.emit("cavector", c, o, rnd_index(r, ncalo, 0.15))
+            else:
+                self.emit("cacorr", c, o, rnd_index(r, ncalo, 0.15), r.choice(st["params"]))
+            st["params"].append(max(st["params"]) + 1)
+        elif x < 0.96:
+            rows, cols = r.choice([(2, 2), (1, 1), (1, 1), (2, 1), (1, 2)])
+            d = self.need_data()
+            src = r.randrange(2)
+            if src == 0 and self.D[d]["freqs"] <= 0 and r.random() < 0.8:
+                self.emit("dinit", d, 1, rows, rows, r.choice([1, 2, 3]))
+                self.emit("dsetfv", d, 0)
+            self.emit("caapply", c, rnd_index(r, ncal, 0.15), src, d, rows, cols, r.randrange(2), o, rnd_index(r, ncalo, 0.15))
+        else:
+            other = 1 - c
+            if self.C[other] is None:
+                if not st.get("named"):
+                    fid = r.randrange(3)
+                    self.emit("csave", c, fid)
+                    self.saved.add(fid)
+                    st["named"] = True
+                self.emit("caload", other, c, r.randrange(2))
+                self.C[other] = dict(params=[0, 1, 2], cals=list(st["cals"]), named=True)
+            else:
+                self.emit("casave", c, other)
+
     # ------------------------------------------------------------------ vnacal_new
     def new_op(self):
         r = self.rng
         n = r.randrange(NN)
         st = self.N[n]
+        if st is not None and r.random() < self.p_alias["n"]:
+            cs = [i for i in range(NC) if self.C[i] is not None and self.C[i]["cals"]]
+            if cs:
+                c = st["c"] if (st["c"] in cs and r.random() < 0.7) else r.choice(cs)
+                self.emit(r.choice(["nasetfv", "nasetfv", "namerr"]), n, c, rnd_index(r, len(self.C[c]["cals"]), 0.15))
+                return
         if st is None:
             cs = [i for i in range(NC) if self.C[i] is not None]
             if not cs:
@@ -594,9 +881,233 @@ class Gen(object):
                     self.C[c]["cals"].append("cal0")
             self.emit("nsolve", r.choice(ns))
 
-    def random_script(self, nops):
+    def free_new(self, exclude=()):
+        """a vnacal_new slot (released first when in use)"""
+        r = self.rng
+        cand = [i for i in range(NN) if i not in exclude]
+        empty = [i for i in cand if self.N[i] is None]
+        n = r.choice(empty) if empty else r.choice(cand)
+        if self.N[n] is not None:
+            self.emit("nfree", n)
+            self.N[n] = None
+        return n
+
+    def need_data(self):
+        ds = [i for i in range(ND) if self.D[i] is not None]
+        if ds:
+            return self.rng.choice(ds)
+        d = self.rng.randrange(ND)
+        self.emit("dalloc", d, 1)
+        self.D[d] = dict(rows=0, cols=0, freqs=0, type=0)
+        return d
+
+    def sol_standards(self, n, ports, order=None):
+        stds = [("nsr", n, ports, ports, 0, 0, s11, p, g, "0") for p in range(1, ports + 1) for s11, g in ((2, "-1"), (1, "1"), (0, "0"))]
+        stds += [("nthru", n, ports, ports, 0, 0, p1, p2) for p1 in range(1, ports + 1) for p2 in range(p1 + 1, ports + 1)]
+        return stds
+
+    def zero_freq_scenario(self):
+        """a vnacal_new_t with ZERO frequencies and unknown / correlated parameters taken through set_frequency_vector, add,
+        m_error, solve, add_calibration, apply, save, load (neighbourhood of D68, D63, D66, D13)"""
+        r = self.rng
+        c = self.fresh_cal()
+        self.emit("cscalar", c, "0.45", "0.25")
+        s = self.add_param(c, ("s",))
+        self.emit("cunknown", c, r.choice([s, s, 2, 1]))
+        unk = [self.add_param(c, ("u", s))]
+        k = r.randrange(4)
+        if k == 1:
+            self.emit("ccorr", c, unk[0], 1, r.choice([0, 1]))
+            unk.append(self.add_param(c, ("c", unk[0])))
+        elif k == 2:
+            self.emit("cunknown", c, r.choice([0, 1, 2]))
+            unk.append(self.add_param(c, ("u", 0)))
+        elif k == 3:
+            self.emit("ccorr", c, s, 1, 1)
+            unk.append(self.add_param(c, ("c", s)))
+        n = self.free_new()
+        ports = r.choice([1, 1, 2])
+        t = r.choice([T8, U8, TE10, UE10, T16, U16, UE14, E12])
+        self.emit("nalloc", n, c, t, ports, ports, 0)
+        self.N[n] = dict(c=c, type=t, rows=ports, cols=ports, freqs=0, fv=True, solved=True)
+        self.emit("nsetfv", n, 0)
+        stds = self.sol_standards(n, ports)
+        for u in unk:
+            stds.append(("nsr", n, ports, ports, 0, 0, u, r.randrange(1, ports + 1), "0.5", "0.3"))
+        if ports == 2 and r.random() < 0.5:
+            stds.append(("ndr", n, 2, 2, 0, 0, unk[0], unk[-1], 1, 2, "0.5", "0.3", "0.4", "-0.1"))
+        if r.random() < 0.5:
+            r.shuffle(stds)
+        if r.random() < 0.4:
+            stds.insert(r.choice([0, 0, len(stds)]), ("nmerr", n, r.choice([0, 1, 1, 2]), r.choice([0, 1, 2, 5])))
+        for st_ in stds:
+            self.emit(*st_)
+        self.emit("nsolve", n)
+        tail = [("nsolve", n), ("cpval", c, unk[0], "1e9"), ("cpval", c, unk[-1], "2.5e9"), ("caddcal", c, "cal0", n), ("cgets", c, 0)]
+        d = self.need_data()
+        tail.append(("capply", c, 0, d, r.choice([0, 0, 1, 2]), ports, ports, r.randrange(2), 0))
+        tail.append(("caapply", c, 0, 1, d, ports, ports, r.randrange(2), c, 0))
+        fid = r.randrange(3)
+        tail += [("csave", c, fid), ("casave", c, c)]
+        r.shuffle(tail)
+        tail = [("caddcal", c, "cal0", n)] + tail[:r.choice([3, 5, 7])]
+        for t_ in tail:
+            self.emit(*t_)
+            if t_[0] == "csave":
+                self.saved.add(fid)
+        if "cal0" not in self.C[c]["cals"]:
+            self.C[c]["cals"].append("cal0")
+
+    def trl_scenario(self):
+        """2x2 T8 / U8 / TE10 / UE10 calibration with exactly three standards and two unknown parameters (the TRL detection path of
+        vnacal_new_solve): through / reflect / line shapes mixed with single and double reflects, in every order (D69)"""
+        r = self.rng
+        c = self.fresh_cal()
+        g = []
+        for _ in range(2):
+            if r.random() < 0.5:
+                self.emit("cscalar", c, r.choice(["-0.9", "0.3", "0.95"]), r.choice(["0", "0.1"]))
+                g.append(self.add_param(c, ("s",)))
+            else:
+                g.append(r.choice([0, 1, 2]))
+        u = []
+        for i in range(2):
+            self.emit("cunknown", c, g[i])
+            u.append(self.add_param(c, ("u", g[i])))
+        n = self.free_new()
+        t = r.choice([T8, U8, TE10, UE10])
+        f = r.choice([1, 2, 3])
+        self.emit("nalloc", n, c, t, 2, 2, f)
+        self.N[n] = dict(c=c, type=t, rows=2, cols=2, freqs=f, fv=True, solved=True)
+        self.emit("nsetfv", n, 0)
+
+        def par(i):
+            return u[i] if r.random() < 0.75 else r.choice([0, 1, 2])
+        pool = [
+            lambda: ("nsr", n, 2, 2, 0, 0, par(0), 1, "0.5", "0.1"),
+            lambda: ("nsr", n, 2, 2, 0, 0, par(1), 2, "-0.5", "0.1"),
+            lambda: ("nsr", n, 2, 2, 0, 0, par(0), 2, "0.5", "0.1"),
+            lambda: ("ndr", n, 2, 2, 0, 0, par(0), par(1), 1, 2, "0.5", "0", "-0.5", "0"),
+            lambda: ("ndr", n, 2, 2, 0, 0, u[0], u[0], 2, 1, "0.5", "0", "0.5", "0"),
+            lambda: ("nthru", n, 2, 2, 0, 0, 1, 2),
+            lambda: ("nthru", n, 2, 2, 0, 0, 2, 1),
+            lambda: ("nline", n, 2, 2, 0, 0, 0, u[1], u[1], 0, 1, 2, 0, "0", "0.7", "0.7", "0"),           # L: matched line of unknown transmission
+            lambda: ("nline", n, 2, 2, 0, 0, u[0], 0, 0, u[0], 1, 2, 0, "0.6", "0", "0", "0.6"),           # R: equal unknown reflects, no transmission
+            lambda: ("nline", n, 2, 2, 0, 0, 0, 1, 1, 0, 1, 2, 0, "0", "1", "1", "0"),                     # T written as a line
+            lambda: ("nline", n, 2, 2, 0, 0, par(0), par(1), par(1), par(0), 2, 1, 0, "0.1", "0.7", "0.7", "0.1"),
+        ]
+        if r.random() < 0.35:
+            chosen = [pool[5], pool[8], pool[7]]            # a real TRL set, in a random order
+        else:
+            chosen = [r.choice(pool) for _ in range(3)]
+        r.shuffle(chosen)
+        for mk in chosen:
+            self.emit(*mk())
+        self.emit("nsolve", n)
+        for _ in range(r.choice([0, 1, 2])):
+            k = r.randrange(4)
+            if k == 0:
+                self.emit("cpval", c, r.choice(u), "1.5e9")
+            elif k == 1:
+                self.emit("caddcal", c, "cal0", n)
+                if "cal0" not in self.C[c]["cals"]:
+                    self.C[c]["cals"].append("cal0")
+            elif k == 2:
+                self.emit(*r.choice(pool)())               # a fourth standard: no longer the TRL path
+                self.emit("nsolve", n)
+            else:
+                self.emit("nsolve", n)
+
+    def save_loaded_scenario(self):
+        """save a calibration file, load it, save the loaded vnacal_t to the file name it reports (D70), and to the name of a second
+        vnacal_t that holds the same file"""
+        r = self.rng
+        c = r.randrange(NC)
+        if self.C[c] is not None:
+            self.emit("cfree", c)
+            for i in range(NN):
+                if self.N[i] is not None and self.N[i]["c"] == c:
+                    self.N[i] = None
+            self.C[c] = None
+        ports = r.choice([1, 1, 2])
+        self.calibration_scenario(self.free_new(), c, r.choice([T8, U8, TE10, UE10, E12, UE14, T16]), ports, r.choice([1, 2, 3]))
+        fid = r.randrange(3)
+        self.emit("csave", c, fid)
+        self.saved.add(fid)
+        k = r.randrange(3)
+        if k == 0:
+            self.emit("casave", c, c)
+        elif k == 1:
+            self.emit("cfree", c)
+            for i in range(NN):
+                if self.N[i] is not None and self.N[i]["c"] == c:
+                    self.N[i] = None
+            self.emit("cload", c, fid, r.randrange(2))
+            self.emit("casave", c, c)
+            self.emit("cgets", c, 0)
+            if r.random() < 0.5:
+                self.emit("cpset", c, 0, "k=v")
+                self.emit("casave", c, c)
+        else:
+            o = 1 - c
+            if self.C[o] is not None:
+                self.emit("cfree", o)
+                for i in range(NN):
+                    if self.N[i] is not None and self.N[i]["c"] == o:
+                        self.N[i] = None
+            self.emit("caload", o, c, r.randrange(2))
+            self.C[o] = dict(params=[0, 1, 2], cals=list(self.C[c]["cals"]))
+            self.emit("casave", r.choice([c, o]), r.choice([c, o]))
+            self.emit("casave", o, o)
+            self.emit("cgets", o, 0)
+
+    def hint_shrink_scenario(self):
+        """shrink after use: one unknown parameter solved by a calibration of many frequencies, evaluated at an off-grid frequency near
+        the top of that range (which stores the segment found), then solved by a calibration of few frequencies and evaluated again"""
+        r = self.rng
+        c = self.fresh_cal()
+        if r.random() < 0.6:
+            self.emit("cscalar", c, "0.45", "0.25")
+            self.add_param(c, ("s",))
+        else:
+            self.emit("cvector", c, r.choice([2, 3, 5]), 0)
+            self.add_param(c, ("v", 2))
+        self.emit("cunknown", c, 3)
+        unk = [self.add_param(c, ("u", 3))]
+        if r.random() < 0.3:
+            self.emit("ccorr", c, unk[0], 1, 1)
+            unk.append(self.add_param(c, ("c", unk[0])))
+        big, small = r.choice([6, 9, 12]), r.choice([2, 3, 4])
+        n1 = self.free_new()
+        n2 = self.free_new(exclude=(n1,))
+        for n, nf in ((n1, big), (n2, small)):
+            t = r.choice([T8, U8, TE10, UE10, UE14, E12])
+            self.emit("nalloc", n, c, t, 1, 1, nf)
+            self.N[n] = dict(c=c, type=t, rows=1, cols=1, freqs=nf, fv=True, solved=True)
+            self.emit("nsetfv", n, 0)
+            for st_ in self.sol_standards(n, 1):
+                self.emit(*st_)
+            for p in unk:
+                self.emit("nsr", n, 1, 1, 0, 0, p, 1, "0.5", "0.3")
+        self.emit("nsolve", n1)
+        for p in unk:
+            self.emit("cpval", c, p, "%.2fe9" % (big - r.choice([0.5, 0.25, 1.5])))
+        self.emit("nsolve", n2)
+        for p in unk:
+            self.emit("cpval", c, p, "%.2fe9" % (small - 0.5))
+        if r.random() < 0.5:
+            self.emit("cpval", c, unk[-1], "1.5e9")
+            self.emit("nsolve", n1)
+            self.emit("cpval", c, unk[0], "%.2fe9" % (big - 0.5))
+            self.emit("caddcal", c, "cal0", n2)
+            if "cal0" not in self.C[c]["cals"]:
+                self.C[c]["cals"].append("cal0")
+
+    def random_script(self, nops, profile=None):
         r = self.rng
         fns = {"p": self.prop_op, "d": self.data_op, "c": self.cal_op, "n": self.new_op}
+        if profile is not None and PROFILES[profile][1] is not None:
+            getattr(self, PROFILES[profile][1])()           # the history starts with this scenario
         if "n" in self.modules and r.random() < 0.5:
             self.calibration_scenario(r.randrange(NN), r.randrange(NC), r.choice([T8, U8, TE10, UE10, E12, UE14]), r.choice([1, 2, 2]), r.choice([1, 2, 3]))
         if "c" in self.modules:
@@ -608,14 +1119,52 @@ class Gen(object):
                 self.param_chain_scenario()
             elif x < 0.4 and "n" in self.modules:
                 self.unknown_solve_scenario()
+            # neighbourhoods of D68 / D69 / D70 and of the seeded change C03-6 (see the doc strings)
+            if "n" in self.modules:
+                x = r.random()
+                if x < 0.16:
+                    self.zero_freq_scenario()
+                elif x < 0.32:
+                    self.trl_scenario()
+                elif x < 0.44:
+                    self.save_loaded_scenario()
+                elif x < 0.58:
+                    self.hint_shrink_scenario()
+        if "p" in self.modules and r.random() < 0.25:
+            self.list_boundary_scenario()
+        if "d" in self.modules and r.random() < 0.30:
+            self.data_shrink_scenario()
+        nops = max(nops, len(self.ops) + nops // 3)       # a long scenario is still followed by random ops on its objects
         while len(self.ops) < nops:
             m = r.choice(self.modules)
             fns[m]()
         return self.ops
 
 
+# profile -> (modules of the random ops that follow, scenario method or None, probability of a self-aliasing op or None)
+PROFILES = {
+    "zero_freq": (("c", "n", "d"), "zero_freq_scenario", None),
+    "trl": (("c", "n"), "trl_scenario", None),
+    "save_loaded": (("c", "n"), "save_loaded_scenario", None),
+    "hint_shrink": (("c", "n"), "hint_shrink_scenario", None),
+    "param_chain": (("c", "n"), "param_chain_scenario", None),
+    "unknown_solve": (("c", "n"), "unknown_solve_scenario", None),
+    "list_boundary": (("p",), "list_boundary_scenario", None),
+    "data_shrink": (("d",), "data_shrink_scenario", None),
+    "alias_prop": (("p",), None, 0.5),
+    "alias_data": (("d",), None, 0.5),
+    "alias_cal": (("c", "n", "d", "p"), None, 0.4),
+}
+
+
 def gen_script(rng, nops, modules=("p", "d", "c", "n"), p_bad=0.15):
     return Gen(rng, modules, p_bad).random_script(nops)
+
+
+def gen_profile_script(rng, nops, profile, p_bad=0.15):
+    """a history that starts with the named scenario (or has a high rate of self-aliasing ops) and goes on with random ops"""
+    mods, _, p_alias = PROFILES[profile]
+    return Gen(rng, mods, p_bad, p_alias=p_alias).random_script(nops, profile=profile)
 
 
 def mutate_script(rng, ops, nmut=3):
@@ -693,6 +1242,9 @@ def fault_signature(rc, err):
     m = re.search(r"(\S+): Assertion `(.*?)' failed", err)
     if m:
         return {"kind": "fault", "error": "assert", "function": m.group(1).rstrip(":")}
+    if rc in (-27, 128 + 27):
+        # SIGPROF: the per-op processor-time watchdog of the harness (endless loop / unbounded recursion in one op)
+        return {"kind": "fault", "error": "timeout", "function": None}
     if rc < 0 or rc in (134, 139, 136):
         return {"kind": "fault", "error": "signal %d" % (-rc if rc < 0 else rc - 128), "function": None}
     return None
